@@ -245,6 +245,9 @@ func runC19(c *kit.Ctx) {
 	}
 
 	// ---- R4 ---------------------------------------------------------------
+	closedErrorProducersAreFrozen(c)
+	zkSessionIsClosed(c)
+
 	c.StartRule("R6", "Close acquires no mutex that is held across a blocking operation", 1)
 	noBlockingWhileLocked(c, true, [3]string{"", "client", "Close"}, [3]string{"region", "client", "Close"})
 
